@@ -12,7 +12,9 @@ class Event:
       self.handlers.remove(handler)
 
   def __call__(self, *args, **kwargs):
-    for handler in self.handlers:
+    # Iterate over a copy: handlers (un)register themselves while events are
+    # delivered, possibly from another thread.
+    for handler in list(self.handlers):
       try:
         handler(*args, **kwargs)
       except Exception:
